@@ -200,7 +200,14 @@ private:
       } else if (cst.is_strict_inequality()) {
         // do nothing
       } else {
-        // cst is a disequation
+        // cst is a disequation: c*pivot != res implies pivot != res/c
+        // only if the division is exact (e.g., 7*x != 1 says nothing
+        // about x = 1/7 = 0 with integer division).
+        Interval ic =
+            interval_traits::mk_interval<Interval>(c, get_bitwidth(pivot));
+        if (!(rhs * ic == res)) {
+          continue;
+        }
         Interval old_i = env.at(pivot);
         Interval new_i = interval_traits::trim_interval(old_i, rhs);
         if (new_i.is_bottom()) {
